@@ -58,6 +58,12 @@ def odd_sizes_model(rng):
   return models._spec(b, [g], 'odd_sizes')
 
 
+def is_large_form(content):
+  """Observed at the boundary: the external-buffer form is the one in which some buffer carries an offset > 1."""
+  root = S.Model.GetRootAs(content, 0)
+  return any(root.Buffers(i).Offset() > 1 for i in range(root.BuffersLength()))
+
+
 def blank(content):
   m = fu.read_model_from_bytearray(bytearray(content))
   for buf in m.buffers:
@@ -158,7 +164,7 @@ def run_case(ctx, case, rng):
       large = common.pipeline(spec, datasets, rules=rules, cal=small.cal if small.need_cal else None)
   finally:
     os.environ.pop(THR, None)
-  took_large = LARGE_CALLS[0] > before
+  took_large = (large.out is not None and is_large_form(large.out)) or LARGE_CALLS[0] > before
   base = {'rules': small.accepted, 'ops': common.describe_model(spec.content, src), 'threshold': thr, 'reused_quantizer': bool(reuse)}
   if (small.exc is None) != (large.exc is None):
     ctx.violation('one_path_raised', {'small_raised': small.exc is not None},
